@@ -335,7 +335,15 @@ func (r *router) Routes(routePath, methods string, handlers ...Handler) *Route {
 
 	var route *Route
 	for _, m := range ms {
-		route = r.Route(m, routePath, handlers)
+		rt := r.Route(m, routePath, handlers)
+		if route == nil {
+			route = rt
+			continue
+		}
+		// The returned Route stands for all of the methods, not just the last one.
+		for method, leaf := range rt.leaves {
+			route.leaves[method] = leaf
+		}
 	}
 	return route
 }
